@@ -2,7 +2,10 @@ package main
 
 // C16 — PMap is Map run in parallel.
 //
-// Case line:   n=<n> pool=<nil|int> mode=<o|r> ty=<i|s> hold=<0|1> seed=<k>
+// Case line:   n=<n> pool=<nil|int> mode=<o|r> ty=<i|s> hold=<0|1|2> seed=<k> [nest=<m>]
+//         or   reuse pool=.. mode=.. ty=.. hold=.. seed=..: n=<n1> ; n=<n2> ; ...   (ONE PMapOption object for all calls; the line ends with
+//              opt=ok when the object is unchanged afterwards)
+//   nest=<m>: f itself calls PMap(3y+1, nil, x..x+m-1) and returns the sum
 //   list[i] = (i*31 + seed*7 + (i*i)%5) % 97 (ints) / the same number as "s%03d" (strings); f x = 3x+1 / x+"!"
 //   pool=nil: no FixedPool (ordered mode: option == nil; RandomOrder: PMapOption{RandomOrder: true})
 //   hold=1: every call of f waits until as many calls are in progress as the statement allows workers
@@ -39,11 +42,22 @@ type c16Case struct {
 	hold   bool
 	rev    bool
 	seed   int
+	nest   int // > 0: f itself calls PMap on x, x+1, …, x+nest-1 and returns the sum
 }
 
-func c16Parse(line string) (*c16Case, bool) {
+func c16Parse(line string) (*c16Case, bool) { return c16ParseToks(strings.Fields(line)) }
+
+func c16ParseToks(fs []string) (*c16Case, bool) {
 	c := &c16Case{}
-	fs := strings.Fields(line)
+	if len(fs) == 7 {
+		kv := strings.SplitN(fs[6], "=", 2)
+		x, err := strconv.Atoi(kv[len(kv)-1])
+		if len(kv) != 2 || kv[0] != "nest" || err != nil || x < 0 {
+			return nil, false
+		}
+		c.nest = x
+		fs = fs[:6]
+	}
 	if len(fs) != 6 {
 		return nil, false
 	}
@@ -180,6 +194,39 @@ func (m *c16Mon) apply(v int) {
 }
 
 func c16Run(line string) string {
+	if i := strings.Index(line, ": "); i >= 0 {
+		// reuse <pool mode ty hold seed>: n=<n1> ; n=<n2> ; …   — ONE option object for all the calls
+		head := strings.Fields(line[:i])
+		if len(head) != 6 || head[0] != "reuse" {
+			return "bad-case"
+		}
+		var option *fpgo.PMapOption
+		var orig fpgo.PMapOption
+		var outs []string
+		for _, op := range strings.Split(line[i+2:], ";") {
+			if op = strings.TrimSpace(op); op == "" {
+				continue
+			}
+			c, ok := c16ParseToks(append([]string{op}, head[1:]...))
+			if !ok {
+				return "bad-case"
+			}
+			if option == nil {
+				option = &fpgo.PMapOption{RandomOrder: c.random}
+				if c.pool != nil {
+					option.FixedPool = *c.pool
+				}
+				orig = *option
+			}
+			outs = append(outs, c16RunOne(c, option))
+		}
+		if option == nil || *option == orig {
+			outs = append(outs, "opt=ok")
+		} else {
+			outs = append(outs, fmt.Sprintf("opt=%d,%v", option.FixedPool, option.RandomOrder))
+		}
+		return strings.Join(outs, " | ")
+	}
 	c, ok := c16Parse(line)
 	if !ok {
 		return "bad-case"
@@ -191,6 +238,11 @@ func c16Run(line string) string {
 			option.FixedPool = *c.pool
 		}
 	}
+	return c16RunOne(c, option)
+}
+
+// one PMap call with the monitors inside f
+func c16RunOne(c *c16Case, option *fpgo.PMapOption) string {
 	mon := &c16Mon{counts: map[int]int{}, hold: c.hold, bound: c16Bound(c), open: make(chan struct{})}
 	if c16GateBroken.Load() {
 		mon.opened = true
@@ -234,6 +286,18 @@ func c16Run(line string) string {
 	} else {
 		out := fpgo.PMap(func(x int) int {
 			mon.apply(x)
+			if c.nest > 0 {
+				// f calls PMap itself (while its own worker goroutine is still alive): the sum of 3y+1 over x .. x+nest-1
+				inner := make([]int, c.nest)
+				for j := range inner {
+					inner[j] = x + j
+				}
+				sum := 0
+				for _, r := range fpgo.PMap(func(y int) int { return 3*y + 1 }, nil, inner...) {
+					sum += r
+				}
+				return sum
+			}
 			return 3*x + 1
 		}, option, vals...)
 		if c.random {
@@ -340,8 +404,36 @@ func c16Gen(tier string, rng *rand.Rand, emit func(string)) map[string]interface
 			}
 		}
 	}
-	return map[string]interface{}{"exhaustive": false, "scope": fmt.Sprintf("n in 0..%d x FixedPool in {nil,-1,0,1,2,3,5,n-1,n,n+3} x {ordered,RandomOrder} x {hold,free} x %d list seeds; + n<=12 grid over both element types + n in {97,256,1000} x 5 pool sizes x both modes", maxN, seeds),
+	// ONE option object passed to several PMap calls (PMap must only read it): empty list first, short list first, then long
+	reuse := 0
+	for _, p := range []string{"1", "2", "3", "7", "0", "-1", "50"} {
+		for _, mode := range []string{"o", "r"} {
+			for _, ns := range []string{"n=0 ; n=40", "n=2 ; n=40", "n=0 ; n=2 ; n=40 ; n=1 ; n=97", "n=40 ; n=0 ; n=40", "n=5 ; n=3 ; n=12"} {
+				for _, hold := range []string{"1", "0"} {
+					if hold == "0" && (reuse+len(p))%3 != 0 {
+						continue
+					}
+					emit(fmt.Sprintf("reuse pool=%s mode=%s ty=%s hold=%s seed=%d: %s", p, mode, []string{"i", "s"}[reuse%2], hold, rng.Intn(1000), ns))
+					reuse++
+					count++
+				}
+			}
+		}
+	}
+	// nested: f calls PMap itself; with no pool size there are as many outer workers as elements, all of them inside f at once (hold=1)
+	nested := 0
+	for _, nc := range []string{"n=1 pool=nil", "n=5 pool=nil", "n=5 pool=2", "n=40 pool=nil", "n=40 pool=3", "n=200 pool=nil", "n=1100 pool=nil", "n=1300 pool=nil"} {
+		for _, mode := range []string{"o", "r"} {
+			if strings.HasPrefix(nc, "n=1300") && mode == "r" {
+				continue
+			}
+			emit(fmt.Sprintf("%s mode=%s ty=i hold=1 seed=%d nest=%d", nc, mode, rng.Intn(1000), 2+nested%3))
+			nested++
+			count++
+		}
+	}
+	return map[string]interface{}{"exhaustive": false, "reuse_cases": reuse, "nested_cases": nested, "scope": fmt.Sprintf("n in 0..%d x FixedPool in {nil,-1,0,1,2,3,5,n-1,n,n+3} x {ordered,RandomOrder} x {hold,free} x %d list seeds; + n<=12 grid over both element types + n in {97,256,1000} x 5 pool sizes x both modes", maxN, seeds),
 		"cases": count, "max_n": maxN}
 }
 
-func init() { register("C16", &Prop{Gen: c16Gen, Run: c16Run, CaseTimeout: 12 * time.Second}) }
+func init() { register("C16", &Prop{Gen: c16Gen, Run: c16Run, CaseTimeout: 20 * time.Second}) }
